@@ -10,8 +10,10 @@ package sched
 import (
 	"fmt"
 	"os"
+	"reflect"
 	"runtime"
 	"runtime/debug"
+	"sort"
 	"strings"
 	"sync"
 	"sync/atomic"
@@ -73,8 +75,24 @@ type Options struct {
 	Kinds     uint32 // bit mask of Kind values that are scheduling points (0 = all)
 	MaxPoints int    // horizon; exceeding it is reported as Failure "horizon"
 	Trace     bool   // record Events
+	// Delay selects delay bounding instead of preemption bounding: at every thread choice the
+	// alternatives are in round-robin order and taking the k-th one costs k (also when the
+	// running thread blocked or exited), which keeps the free choices at blocking points from
+	// multiplying. The budget is still called MaxPre by the explorer.
+	Delay bool
 	// MaxPre/MaxDev: when >0 the scheduler itself does not record alternatives beyond
 	// the budget (pure optimisation; the explorer enforces the budgets anyway).
+}
+
+// ThreadCost is the budget consumed by taking alternative alt at a thread choice.
+func (o Options) ThreadCost(curEnabled bool, alt int) int {
+	if o.Delay {
+		return alt
+	}
+	if curEnabled && alt != 0 {
+		return 1
+	}
+	return 0
 }
 
 // Run is one controlled execution.
@@ -348,9 +366,7 @@ func (r *Run) pickOrd(from *Thread, fromEnabled, fromLast bool, kind Kind, label
 		p := Point{Kind: kind, Thread: tid, Label: label, NAlts: len(en), Chosen: choice,
 			CurEnabled: fromEnabled, Pre: r.pre, Dev: r.dev, Alts: en}
 		r.Points = append(r.Points, p)
-		if p.CurEnabled && choice != 0 {
-			r.pre++
-		}
+		r.pre += r.opts.ThreadCost(p.CurEnabled, choice)
 	}
 	nxt := r.threads[en[choice]]
 	if r.opts.Trace {
@@ -489,6 +505,21 @@ func Wake(obj interface{}) {
 			t.blocked = nil
 		}
 	}
+}
+
+// SortedStringKeys returns the keys of a map with string keys in sorted order. The rewriter
+// (flag maps=...) uses it to make selected `range` loops over maps deterministic.
+func SortedStringKeys(m interface{}) []string {
+	v := reflect.ValueOf(m)
+	if v.Kind() != reflect.Map {
+		panic("sched.SortedStringKeys: not a map")
+	}
+	keys := make([]string, 0, v.Len())
+	for _, k := range v.MapKeys() {
+		keys = append(keys, k.String())
+	}
+	sort.Strings(keys)
+	return keys
 }
 
 // OthersAlive reports whether another harness thread is unfinished.
